@@ -40,7 +40,8 @@ def plan(tier, prop):
                 "its field tree; non-trivial = at least one operation was "
                 "accepted; distinct = distinct abstract event traces "
                 "(operation kinds with accept/reject outcomes)",
-        "expected_probes": ["exact_fit", "sibling_scopes_reuse_name",
+        "expected_probes": ["single_field_query", "tags_other_iterable",
+                            "exact_fit", "sibling_scopes_reuse_name",
                             "explicit_overlap_rejected",
                             "overflow_rejected", "assign_repeated",
                             "assign_failed", "value_too_large_rejected",
